@@ -120,6 +120,37 @@ func init() {
 			}
 		}
 	})
+	// the UDP half of the same scenarios is the configuration-level part of C16
+	udpOnlyReports := func(rc repCase) *engine.Scenario {
+		sc := reportScenario(rc)
+		inner := sc.Check
+		sc.Check = func(x *vrt.Exec) (string, bool, []*engine.Finding) {
+			obs, nt, fs := inner(x)
+			var keep []*engine.Finding
+			for _, f := range fs {
+				if len(f.Sig) < 10 || (f.Sig[:10] != "open-repor" && f.Sig[:10] != "close-repo" && f.Sig[:10] != "auth-repor" && f.Sig[:10] != "probe-repo" && f.Sig[:10] != "configured") {
+					keep = append(keep, f)
+				}
+			}
+			return obs, nt, keep
+		}
+		return sc
+	}
+	hk.Register("C16main", func(ctx *engine.Ctx) {
+		for i, rc := range cases {
+			if ctx.Mine(int64(i)) {
+				ctx.RunCase("config-reports", "E", udpOnlyReports(rc), rc, nil)
+			}
+		}
+	})
+	hk.Replayers["C16main"] = func(ctx *engine.Ctx, rp engine.Replay) []*engine.Finding {
+		var rc repCase
+		if err := json.Unmarshal(rp.Input, &rc); err != nil {
+			return []*engine.Finding{{Sig: "BROKEN:bad-input", Msg: err.Error()}}
+		}
+		rp.Choices = nil
+		return engine.ReplayCase("config-reports", udpOnlyReports(rc), rp)
+	}
 	hk.Replayers["C15main"] = func(ctx *engine.Ctx, rp engine.Replay) []*engine.Finding {
 		var rc repCase
 		if err := json.Unmarshal(rp.Input, &rc); err != nil {
